@@ -43,6 +43,7 @@ type FileInfo struct {
 	FMFiles      []string `json:"fm_files"`
 	Expected     []string `json:"expected_fm_files"`
 	NonDeterm    string   `json:"non_deterministic"`
+	OptSpelling  string   `json:"option_spelling"`
 	ParseErr     string   `json:"parse_err"`
 	BuildErr     string   `json:"build_err"`
 	PlainBuildOK bool     `json:"plain_build_ok"`
